@@ -48,10 +48,13 @@ where
                 });
             }
 
-            if let Some(i) = graph
-                .next_edge_from(storage, current_index.index)
-                .ok()
-                .filter(|i| i.is_valid())
+            // the origin edge (distance 0) was not reached through
+            // its node so its sibling edges are not part of the search
+            if current_index.distance != 0
+                && let Some(i) = graph
+                    .next_edge_from(storage, current_index.index)
+                    .ok()
+                    .filter(|i| i.is_valid())
             {
                 self.stack.push_front(SearchIndex {
                     index: i,
